@@ -44,8 +44,16 @@ structure Field where
   ann : Ann
   dflt : Option Tree      -- `none`: required
 
+/-- a `__post_init__` that validates one field: an `int` value outside `[lo, hi]` makes the constructor raise
+(`ValueError` or any other exception class: `datify` catches them all) -/
+structure Check where
+  field : Key
+  lo : Int
+  hi : Int
+
 structure Class where
   fields : List Field
+  check : Option Check := none
 
 abbrev Schema := List Class
 
@@ -94,11 +102,21 @@ def fillFields (ks : List Key) (vs : List Tree) : List Field → Option (List Tr
     | some v, some rest => some (v :: rest)
     | _, _ => none
 
-/-- `cls(**kw)` once the keyword arguments `ks`/`vs` are datified; `orig` is what the `except` returns -/
+/-- does `__post_init__` let these field values through? -/
+def Class.admits (k : Class) (fvs : List Tree) : Bool :=
+  match k.check with
+  | none => true
+  | some ch =>
+    match lookupKV ch.field (k.fields.map (·.name)) fvs with
+    | some (.int v) => decide (ch.lo ≤ v) && decide (v ≤ ch.hi)
+    | _ => true
+
+/-- `cls(**kw)` once the keyword arguments `ks`/`vs` are datified; `orig` is what the `except Exception` returns:
+unknown key, missing required field, or a `__post_init__` that rejects the values -/
 def construct (c : Nat) (k : Class) (ks : List Key) (vs : List Tree) (orig : Tree) : Tree :=
   if ks.all (fun name => (k.field? name).isSome) then
     match fillFields ks vs k.fields with
-    | some fvs => .obj c (k.fields.map (·.name)) fvs
+    | some fvs => if k.admits fvs then .obj c (k.fields.map (·.name)) fvs else orig
     | none => orig
   else orig
 
